@@ -3,6 +3,9 @@ package svc
 import (
 	"errors"
 	"fmt"
+	"github.com/spq/pkappa2/internal/index/converters"
+	"github.com/spq/pkappa2/internal/tools/bitmask"
+	"github.com/spq/pkappa2/verifx/mc"
 	"sort"
 	"strconv"
 	"strings"
@@ -193,6 +196,7 @@ func (w *World) Apply(ev string) error {
 	w.mu.Lock()
 	w.wantPick = want
 	w.epoch++
+	convBefore := w.convBegins
 	w.mu.Unlock()
 	err := w.apply(base)
 	w.mu.Lock()
@@ -201,6 +205,26 @@ func (w *World) Apply(ev string) error {
 	w.mu.Unlock()
 	if err != nil {
 		return err
+	}
+	w.mu.Lock()
+	convBegan, convArgs := w.convBegins > convBefore, w.lastConvArgs
+	w.mu.Unlock()
+	if convBegan && len(convArgs) >= 2 {
+		// "detaching stops further runs": the job that has just been started must only serve converters
+		// that some tag has attached now (a job already in flight when the tag was detached is another matter)
+		cvs, _ := convArgs[0].([]*converters.CachedConverter)
+		sets, _ := convArgs[1].([]*bitmask.LongBitmask)
+		attached := map[string]bool{}
+		for _, t := range w.Mgr.VerifDump().Tags {
+			for _, c := range t.Converters {
+				attached[c] = true
+			}
+		}
+		for i, cv := range cvs {
+			if i < len(sets) && sets[i] != nil && !sets[i].IsZero() && !attached[cv.Name()] {
+				w.DetachedRuns = append(w.DetachedRuns, fmt.Sprintf("event %s started a conversion job for converter %s (streams %s) although no tag has that converter attached", base, cv.Name(), mc.Dump(sets[i])))
+			}
+		}
 	}
 	if began {
 		w.LastPick = name
